@@ -110,6 +110,11 @@ func resolve(path string, query bsonkit.Doc, doc bson.D, arrayFilters bsonkit.Li
 		// match item against provided array filters
 		matched := false
 		for _, filter := range arrayFilters {
+			// skip filters that bind other identifiers
+			if !bindsIdentifier(filter, identifier) {
+				continue
+			}
+
 			// match item
 			ok, err := Match(&bson.D{
 				bson.E{Key: identifier, Value: item},
@@ -149,4 +154,16 @@ func resolve(path string, query bsonkit.Doc, doc bson.D, arrayFilters bsonkit.Li
 	}
 
 	return nil
+}
+
+// bindsIdentifier will return whether the array filter has a condition on the
+// identifier or a field of it.
+func bindsIdentifier(filter bsonkit.Doc, identifier string) bool {
+	for _, e := range *filter {
+		if e.Key == identifier || strings.HasPrefix(e.Key, identifier+".") {
+			return true
+		}
+	}
+
+	return false
 }
